@@ -308,6 +308,22 @@ def run_case(rng, acc):
   if not callable(built):
     acc.violation('built-partial-not-callable', safe_repr(built), witness())
     return
+  if not isinstance(built, functools.partial):
+    acc.violation('built-partial-is-not-a-functools.partial', safe_repr(built), witness())
+    return
+  if rng.random() < 0.15:
+    # nothing bound at all: still one functools.partial per Partial instance and per build
+    bare = [fdl.Partial(fn), fdl.Partial(fn)]
+    with rec.Trace():
+      b1, b2 = fdl.build(bare), fdl.build(bare)
+    acc.obs('bare_partials_checked')
+    objs = b1 + b2
+    if not all(isinstance(o, functools.partial) for o in objs):
+      acc.violation('built-partial-is-not-a-functools.partial:nothing-bound',
+                    safe_repr(objs[0]), {'target': describe(fn)})
+    elif len({id(o) for o in objs}) != 4 or any(o is fn for o in objs):
+      acc.violation('distinct-partials-or-builds-share-built-object:nothing-bound',
+                    'two Partial instances / two builds returned the same object', {'target': describe(fn)})
 
   ctx = Ctx(acc, witness)
   # ---- calls ---------------------------------------------------------------------
